@@ -53,3 +53,88 @@ def register(M):
       '        hg = self.get_hypergraph(accel="auto")\n',
       "compressed_contract_stats memoised in info[root]: stale after a partial in-place reconfiguration, shared with copies (only the histories see it)",
       ["tests/test_compressed.py"])
+
+    # ---- widening (round 4): reporting methods, objectives, trackers, hyper+reconf, compressed_reconfigure ----
+    M("M_C20_j", ["C20"], "cotengra/core.py",
+      "            compress_late=compress_late,\n        ).peak_size\n",
+      "            compress_late=compress_late,\n        ).max_size\n",
+      "peak_size_compressed (and the ContractionTreeCompressed.peak_size alias) reports max_size (copy-paste): estimate_methods_vs_stats",
+      ["tests/test_compressed.py"])
+    M("M_C20_k", ["C20"], "cotengra/core.py",
+      "        ) + factor * self.total_write_compressed(\n            chi=chi, order=order, compress_late=compress_late\n        )",
+      "        ) + factor * self.total_write_compressed(\n            chi=chi, order=order\n        )",
+      "combo_cost_compressed drops compress_late for its write term: estimate_methods_vs_stats",
+      ["tests/test_compressed.py"])
+    M("M_C20_l", ["C20"], "cotengra/core.py",
+      "        return self.max_size_compressed(chi, order, compress_late, log=log)",
+      "        return self.max_size_compressed(chi, order, log=log)",
+      "contraction_width_compressed drops compress_late: estimate_methods_vs_stats",
+      ["tests/test_compressed.py"])
+    M("M_C20_m", ["C20"], "cotengra/core.py",
+      "            return objective.compress_late\n",
+      "            return objective.late\n",
+      "get_default_compress_late reads a non-existent attribute and silently falls back to False: the defaults of the aliases "
+      "ignore a compress_late objective (default_late_from_objective / estimate_methods_vs_stats)",
+      ["tests/test_compressed.py"])
+    M("M_C20_n", ["C20"], "cotengra/scoring.py",
+      "        return tree.compressed_contract_stats(\n            chi,\n            compress_late=self.compress_late,\n        )",
+      "        return tree.compressed_contract_stats(\n            chi,\n        )",
+      "compressed objectives drop their compress_late when they compute the stats: objective_trial_figures (the hyper route hides it: the tree default is the same objective)",
+      ["tests/test_compressed.py"])
+    M("M_C20_o", ["C20"], "cotengra/scoring.py",
+      "        return CompressedWriteObjective(chi=chi)",
+      "        return CompressedWriteObjective()",
+      "'write-compressed-<chi>' loses its chi when parsed: objective_trial_figures",
+      ["tests/test_compressed.py"])
+    M("M_C20_p", ["C20"], "cotengra/hyperoptimizers/hyper.py",
+      "        if (chi is not None) and not callable(minimize):\n            minimize += f\"-{chi}\"\n\n        kwargs[\"methods\"] = methods\n        kwargs[\"minimize\"] = minimize\n\n        if kwargs.pop(\"slicing_opts\", None) is not None:\n            raise ValueError(\n                \"Cannot use slicing_opts with compressed contraction.\"\n            )\n        if kwargs.pop(\"slicing_reconf_opts\", None) is not None:\n            raise ValueError(\n                \"Cannot use slicing_reconf_opts with compressed contraction.\"\n            )\n\n        super().__init__(**kwargs)\n\n\nclass ReusableHyperCompressedOptimizer",
+      "        if (chi is not None) and not callable(minimize) and \"compressed\" not in minimize:\n            minimize += f\"-compressed-{chi}\"\n\n        kwargs[\"methods\"] = methods\n        kwargs[\"minimize\"] = minimize\n\n        if kwargs.pop(\"slicing_opts\", None) is not None:\n            raise ValueError(\n                \"Cannot use slicing_opts with compressed contraction.\"\n            )\n        if kwargs.pop(\"slicing_reconf_opts\", None) is not None:\n            raise ValueError(\n                \"Cannot use slicing_reconf_opts with compressed contraction.\"\n            )\n\n        super().__init__(**kwargs)\n\n\nclass ReusableHyperCompressedOptimizer",
+      "HyperCompressedOptimizer(chi=..., minimize='peak-compressed') no longer appends the cap to a name that already says "
+      "'compressed': trials are scored with chi='auto' (hyper_trial_figures)",
+      ["tests/test_compressed.py"])
+    M("M_C20_q", ["C20"], "cotengra/hyperoptimizers/hyper.py",
+      "        tree.windowed_reconfigure_(minimize=self.minimize, **self.opts)",
+      "        tree.windowed_reconfigure_(self.minimize, self.opts)",
+      "CompressedReconfTrial passes its options positionally (forgotten **): the dict lands in order_only and the default window "
+      "of 20 steps is used on small paths (hyper_reconf_tree / compressed_finder_tree on the reconf_opts route only)",
+      ["tests/test_compressed.py"])
+    M("M_C20_r", ["C20"], "cotengra/pathfinders/path_compressed.py",
+      "            hg.compress(self.chi, hg.get_node(l))\n            hg.compress(self.chi, hg.get_node(r))\n",
+      "            hg.compress(self.chi, hg.get_node(l))\n",
+      "the path optimisers' late compression forgets the right operand: their tracker no longer follows compressed_contract_stats (tracker_vs_stats)",
+      ["tests/test_compressed.py"])
+    M("M_C20_s", ["C20"], "cotengra/pathfinders/path_compressed.py",
+      "            output=output,\n            size_dict=size_dict,\n            # can't use bit encoding in rust",
+      "            size_dict=size_dict,\n            # can't use bit encoding in rust",
+      "the path optimisers build their hypergraph without the output indices (dropped argument): tracker_exact / tracker_vs_stats",
+      ["tests/test_compressed.py"])
+    M("M_C20_t", ["C20"], "cotengra/scoring.py",
+      "        S = math.log2(max(1, self.max_size))",
+      "        S = math.log2(max(1, self.peak_size))",
+      "tracker.describe() prints the peak as S (copy-paste): tracker_describe",
+      ["tests/test_compressed.py"])
+    M("M_C20_u", ["C20"], "cotengra/scoring.py",
+      "            math.log2(self.peak_size)\n            + math.log2(self.flops + 1) * self.secondary_weight",
+      "            math.log2(self.max_size)\n            + math.log2(self.flops + 1) * self.secondary_weight",
+      "the peak tracker scores by max_size (copy-paste from the size tracker): tracker_score_order",
+      ["tests/test_compressed.py"])
+    M("M_C20_v", ["C20"], "cotengra/pathfinders/path_compressed.py",
+      "        for c in range(cf, len(self.nodes)):\n            self.nodes[c].tracker.update_score(self.nodes[c - 1].tracker)",
+      "        for c in range(cf + 1, len(self.nodes)):\n            self.nodes[c].tracker.update_score(self.nodes[c - 1].tracker)",
+      "after a window is re-optimised the first step behind it keeps its stale totals (off by one): refined_tracker_exact",
+      ["tests/test_compressed.py"])
+    M("M_C20_w", ["C20"], "cotengra/core.py",
+      "        opt.explore_path(self.get_path_surface(), restrict=order_only)",
+      "        opt.explore_path(self.get_ssa_path_surface(), restrict=order_only)",
+      "compressed_reconfigure seeds the search with an ssa path where a linear path is expected: compressed_reconfigure_tree",
+      ["tests/test_compressed.py"])
+    M("M_C20_x", ["C20"], "cotengra/core.py",
+      "        return self.max_size_compressed(chi, order, compress_late, log=log)",
+      "        return self.max_size_compressed(chi=chi, order=order, compress_late=compress_late, log=log)",
+      "harmless: contraction_width_compressed forwards its arguments by keyword",
+      ["tests/test_compressed.py"], harmless=True)
+    M("M_C20_y", ["C20"], "cotengra/experimental/path_compressed_branchbound.py",
+      "            if self.chi == \"auto\":\n                # the tracker has resolved this to a concrete bond dimension\n                self.chi = tracker0.chi\n",
+      "",
+      "revert of fix 24b738c: compressed_reconfigure with an objective that names no chi raises TypeError: compressed_reconfigure_tree",
+      ["tests/test_compressed.py"])
